@@ -34,11 +34,11 @@ CLAIMED = {
   'Trusted: Lean kernel, standard axioms; SQLite index order of find_syntactic_behaviours is modelled (sorted by frame string) and validated by correspondence.'),
  'C04': (
   'Lean 4 theorems on the query layer (every query stays inside the selected lexicons, frame lemmas for owner-filtered tables) + correspondence/oracle over multi-lexicon worlds',
-  'Props/C04.lean proves for every database: words/senses/synsets returned for a selection are owned by selected lexicons (C04_inside_entries/senses/synsets), word.senses()/synset.members come from the scope, relation rows and targets are owned by lexicons in scope, expanded targets are resolved back into the scope or are placeholders, examples/counts are owner-filtered and adding rows owned by an unselected lexicon does not change them (C04_frame_examples), the scope used by entities (C04_scope); and a kernel-checked statement of the leak behind known findings F12/F13 (form tags have no owner filter). The real library is run on worlds with base + extension + unrelated lexicon + second version under every selection, compared with the model, and with an oracle computed from the selected documents only; adding/removing an unselected lexicon must not change any observation.',
+  'Props/C04.lean proves C04_frame_synsets_end_to_end (adding any lexicon that is not in a non-empty selection S leaves synsets() of S, under any id/pos/ILI filter, exactly as it was: composed from the add refinement of C01) and, for every database: words/senses/synsets returned for a selection are owned by selected lexicons (C04_inside_entries/senses/synsets), word.senses()/synset.members come from the scope, relation rows and targets are owned by lexicons in scope, expanded targets are resolved back into the scope or are placeholders, examples/counts are owner-filtered and adding rows owned by an unselected lexicon does not change them (C04_frame_examples), the scope used by entities (C04_scope); and a kernel-checked statement of the leak behind known findings F12/F13 (form tags have no owner filter). The real library is run on worlds with base + extension + unrelated lexicon + second version under every selection, compared with the model, and with an oracle computed from the selected documents only; adding/removing an unselected lexicon must not change any observation.',
   'Trusted: Lean kernel, standard axioms; correspondence harness. Known findings F12/F13 (unselected extension forms, tags, pronunciations leak), F5 (sense.word by id).'),
  'C05': (
   'Lean 4 proof that remove() preserves referential integrity and deletes exactly the owned rows (cascade model of schema.sql) + step-by-step correspondence over random histories + SQLite audits',
-  'Props/C05.lean: for every database satisfying the 35 foreign-key clauses of schema.sql (FK), deleteLexicon and remove() (extensions first) again satisfy them (C05_no_dangling, C05_remove_no_dangling); nothing owned by the removed lexicon remains in any of 14 owned tables (C05_nothing_owned_remains); dependencies of other lexicons survive with provider set to NULL (C05_dependency_kept/unlinked); exactly the lexicon and its listed extensions disappear, other lexicon rows are kept unchanged (C05_remove_lexicons); row-level frame theorems say which rows survive (iff); shared tables untouched. Random histories of add / remove / add-ILI over a universe with extensions of extensions, a dependant, two versions and an unrelated lexicon are executed on the real library and the model (agreement after every step), the final observation must equal a fresh database holding the installed lexicons, PRAGMA foreign_key_check / integrity_check must be clean. get_lexicon_extensions is closed under extends (C05_extensions_closed), hence after remove() no extension row points at a removed base (C05_remove_no_dangling_base). Known finding F12-residue.',
+  'Props/C05.lean: for every database satisfying the 35 foreign-key clauses of schema.sql (FK), deleteLexicon and remove() (extensions first) again satisfy them (C05_no_dangling, C05_remove_no_dangling); nothing owned by the removed lexicon remains in any of 14 owned tables (C05_nothing_owned_remains); dependencies of other lexicons survive with provider set to NULL (C05_dependency_kept/unlinked); exactly the lexicon and its listed extensions disappear, other lexicon rows are kept unchanged (C05_remove_lexicons); the removed lexicon can be added again (C05_can_be_added_again) and adding a lexicon relinks the waiting dependencies on it (C05_dependencies_relinked); row-level frame theorems say which rows survive (iff); shared tables untouched. Random histories of add / remove / add-ILI over a universe with extensions of extensions, a dependant, two versions and an unrelated lexicon are executed on the real library and the model (agreement after every step), the final observation must equal a fresh database holding the installed lexicons, PRAGMA foreign_key_check / integrity_check must be clean. get_lexicon_extensions is closed under extends (C05_extensions_closed), hence after remove() no extension row points at a removed base (C05_remove_no_dangling_base). Known finding F12-residue.',
   'Trusted: Lean kernel, standard axioms; SQLite cascade execution and rowid allocation modelled (max+1), validated by correspondence; Model/Schema obligations tie the table list to schema.sql.'),
  'C06': (
   'Lean 4 proof over a transaction model (statement trace with rollback) that add/remove are atomic at every failure point + fault injection on the real library at every progress/authorizer callback',
